@@ -219,13 +219,16 @@ package encoder
 //@   ensures e == nil ==> forall k int :: S <= k && k < Z ==> !gozxing.bit(bits, k)
 //@   ensures e == nil ==> forall m int, j int :: 0 <= m && m < numDataBytes - Z / 8 && 0 <= j && j < 8 ==> gozxing.bit(bits, Z + 8 * m + j) == ((padbyte(m) >> uint(7 - j)) & 1 == 1)
 //@   loop 0: invariant 0 <= i && i <= 4 && bits.size == S + i && bits.size <= C && capacity == C && S <= C && gozxing.wfBA(bits) && gozxing.padBA(bits)
-//@   loop 0: invariant (forall k int :: 0 <= k && k < S ==> gozxing.bit(bits, k) == old(gozxing.bit(bits, k))) && (forall k int :: S <= k && k < bits.size ==> !gozxing.bit(bits, k))
+//@   loop 0: invariant forall k int :: 0 <= k && k < S ==> gozxing.bit(bits, k) == old(gozxing.bit(bits, k))
+//@   loop 0: invariant forall k int :: S <= k && k < bits.size ==> !gozxing.bit(bits, k)
 //@   loop 0: decreases 4 - i
 //@   loop 1: invariant numBitsInLastByte == termEnd(S, C) % 8 && numBitsInLastByte > 0 && numBitsInLastByte <= i && i <= 8 && bits.size == termEnd(S, C) - numBitsInLastByte + i && capacity == C && S <= C && gozxing.wfBA(bits) && gozxing.padBA(bits)
-//@   loop 1: invariant (forall k int :: 0 <= k && k < S ==> gozxing.bit(bits, k) == old(gozxing.bit(bits, k))) && (forall k int :: S <= k && k < bits.size ==> !gozxing.bit(bits, k))
+//@   loop 1: invariant forall k int :: 0 <= k && k < S ==> gozxing.bit(bits, k) == old(gozxing.bit(bits, k))
+//@   loop 1: invariant forall k int :: S <= k && k < bits.size ==> !gozxing.bit(bits, k)
 //@   loop 1: decreases 8 - i
 //@   loop 2: invariant 0 <= i && i <= numPaddingBytes && numPaddingBytes == numDataBytes - Z / 8 && bits.size == Z + 8 * i && capacity == C && S <= C && Z <= C && gozxing.wfBA(bits) && gozxing.padBA(bits)
-//@   loop 2: invariant (forall k int :: 0 <= k && k < S ==> gozxing.bit(bits, k) == old(gozxing.bit(bits, k))) && (forall k int :: S <= k && k < Z ==> !gozxing.bit(bits, k))
+//@   loop 2: invariant forall k int :: 0 <= k && k < S ==> gozxing.bit(bits, k) == old(gozxing.bit(bits, k))
+//@   loop 2: invariant forall k int :: S <= k && k < Z ==> !gozxing.bit(bits, k)
 //@   loop 2: invariant forall m int, j int :: 0 <= m && m < i && 0 <= j && j < 8 ==> gozxing.bit(bits, Z + 8 * m + j) == ((padbyte(m) >> uint(7 - j)) & 1 == 1)
 //@   loop 2: decreases numPaddingBytes - i
 
